@@ -299,7 +299,7 @@ add("growing-flag-and", F, ["C07"], "dfols/solver.py", "('growing.full_rank.use_
     "('growing.full_rank.use_full_rank_interp' in user_params and 'growing.perturb_trust_region_step' in user_params)", "C07-10")
 add("s-growing-flag-de-morgan", S, ["C07"], "dfols/solver.py", "('growing.full_rank.use_full_rank_interp' in user_params or 'growing.perturb_trust_region_step' in user_params)",
     "not ('growing.full_rank.use_full_rank_interp' not in user_params and 'growing.perturb_trust_region_step' not in user_params)")
-add("restart-loop-limit-off-by-one", F, ["C07"], "dfols/controller.py", "            upper_limit = self.model.num_pts - 1", "            upper_limit = self.model.num_pts", "C07-12")
+add("restart-loop-limit-off-by-one", F, ["C07"], "dfols/controller.py", "            upper_limit = self.model.npt() - 1", "            upper_limit = self.model.npt()", "C07-12")
 add("resample-early-return", F, ["C17", "C08"], "dfols/model.py", "        objvals = self.objval[:self.npt()]\n        if not np.all(np.isnan(objvals)):",
     "        if k != self.kopt and not (self.objval[k] < self.objopt()):\n            return\n        objvals = self.objval[:self.npt()]\n        if not np.all(np.isnan(objvals)):", "exit-without-reselection")
 add("s-save-point-guard-clause", S, ["C03", "C04", "C08", "C11", "C17"], "dfols/model.py",
